@@ -317,6 +317,7 @@ def run(ctx):
 
     clean_rule(ctx, syn)
     positional_rule(ctx, syn)
+    omit_rule(ctx, syn)
     mir_rules(ctx)
 
 
@@ -345,6 +346,62 @@ def positional_rule(ctx, syn):
                     if flag != "false":
                         ctx.report(r, key, "%s resolves temporary ids by position but inserts with the duplicate check `%s`: a data item without public id that equals an earlier one is merged into it, its slot stays empty, and the annotation that refers to it by !D<n> fails to load (or the store comes back with fewer items)" % (norm_ty(im["self_ty"]["s"]), flag), im.get("_file"), c.get("l"))
     ctx.floor(r, n, 1, "positional readers that insert data")
+
+
+OMIT_OK = {
+    ("TextResource", '"@id"'): "omitted when equal to the @include filename: TextResourceBuilder falls back to the filename as id",
+    ("AnnotationDataSet", '"@id"'): "omitted when equal to the @include filename: the dataset reader falls back to the filename as id",
+}
+
+
+def omit_rule(ctx, syn, rid="C05.OMIT"):
+    """a writer may leave a field out when the item does not have it (`if let Some(x) = ..`); leaving it out for a
+    particular *value* is sound only if the reader fills in exactly that value, which is reviewed per field"""
+    from synq import children
+    r = ctx.rule(rid, "no STAM JSON writer omits a field for a particular value of that field (a comparison on the value it is about to write), except the reviewed cases where the reader restores exactly that value")
+    n = 0
+
+    def visit(node, conds, out):
+        if not isinstance(node, dict) or node.get("k") == "closure":
+            return
+        if node.get("k") == "if":
+            c = node["cond"]
+            visit(c, conds, out)
+            kind = "let" if strip(c).get("k") == "letexpr" else "cond"
+            visit(node["then"], conds + [(kind, c)], out)
+            if node.get("else"):
+                visit(node["else"], conds + [(kind, c)], out)
+            return
+        if node.get("k") == "mcall" and node["method"] in ("serialize_field", "serialize_entry") and len(node["args"]) == 2:
+            out.append((node, conds))
+        for c_ in children(node):
+            visit(c_, conds, out)
+    for im in syn.impls:
+        tr = im.get("trait") or ""
+        if norm_ty(tr).split("::")[-1] != "Serialize":
+            continue
+        wkey = self_ty_key(im["self_ty"]["s"])
+        for m in im["items"]:
+            if m.get("k") != "fn" or m["name"] != "serialize" or not m.get("body"):
+                continue
+            out = []
+            visit(m["body"], [], out)
+            for node, conds in out:
+                n += 1
+                fname = unparse(strip(node["args"][0]))
+                vnames = set(x["path"][0] for x in walk(node["args"][1]) if x.get("k") == "path" and len(x["path"]) == 1) | set(unparse(x) for x in walk(node["args"][1]) if x.get("k") == "mcall" and unparse(strip(x["recv"])) == "self" and not x["args"])
+                for kind, c in conds:
+                    if kind != "cond":
+                        continue
+                    cmps = [x for x in walk(c) if x.get("k") == "binary" and x["op"] in ("==", "!=")]
+                    for cmp_ in cmps:
+                        cn = set(x["path"][0] for x in walk(cmp_) if x.get("k") == "path" and len(x["path"]) == 1) | set(unparse(x) for x in walk(cmp_) if x.get("k") == "mcall" and unparse(strip(x["recv"])) == "self" and not x["args"])
+                        shared = (vnames & cn) - {"self"}
+                        if shared:
+                            r.hit("%s|%s" % (wkey, fname), sample={"writer": wkey, "field": fname, "omitted_unless": unparse(cmp_)[:60]})
+                            if (wkey, fname) not in OMIT_OK:
+                                ctx.report(r, "%s|%s" % (wkey, fname), "the writer of %s leaves out %s depending on its value (`%s`): the reader does not restore that value when the field is missing (for a selector a missing offset means 'no text selection', not the default offset), so the item comes back different" % (wkey, fname, unparse(cmp_)[:80]), im.get("_file"), node.get("l"))
+    ctx.floor(r, n, 40, "fields written by the STAM JSON writers")
 
 
 def clean_rule(ctx, syn):
